@@ -2,6 +2,7 @@ package props
 
 import (
 	"bytes"
+	"encoding/binary"
 	"encoding/json"
 	"fmt"
 	"math"
@@ -36,7 +37,7 @@ type JNode struct {
 }
 
 type C16Case struct {
-	Mode     string   `json:"mode"`            // text | json-roundtrip | json-frame | text-seq
+	Mode     string   `json:"mode"`            // text | json-roundtrip | json-frame | text-seq | json-seq
 	Texts    [][]byte `json:"texts,omitempty"` // text-seq: messages received one after the other through the same codec instances
 	Text     []byte   `json:"text,omitempty"`
 	Carrier  string   `json:"carrier"`           // inbound carrier type
@@ -48,7 +49,8 @@ type C16Case struct {
 	Frame    []byte   `json:"frame,omitempty"`  // json-frame: raw inbound frame
 	Expect   string   `json:"expect,omitempty"` // json-frame: reject | object
 	Mutation string   `json:"mutation,omitempty"`
-	Loop     bool     `json:"loop"` // through a real channel with a varint frame codec underneath
+	Loop     bool     `json:"loop"`            // through a real channel with a varint frame codec underneath
+	Trees    []JNode  `json:"trees,omitempty"` // json-seq: objects written one after the other; the handler behind the codec keeps the emitted messages
 }
 
 var jsonKeys = []string{"a", "b", "key", "", "ключ", "k\"q", "tab\t", "é", "long-key-with-many-chars", "x y", "\\", "/", "<&>", "🙂"}
@@ -116,7 +118,17 @@ func genJObj(t *rapid.T, depth int) JNode {
 }
 
 func genC16(t *rapid.T) C16Case {
-	c := C16Case{Mode: rapid.SampledFrom([]string{"text", "json-roundtrip", "json-roundtrip", "json-frame", "json-frame", "text-seq"}).Draw(t, "mode")}
+	c := C16Case{Mode: rapid.SampledFrom([]string{"text", "text", "json-roundtrip", "json-roundtrip", "json-frame", "json-frame", "text-seq", "json-seq"}).Draw(t, "mode")}
+	if c.Mode == "json-seq" {
+		// several objects written through one codec; the next outbound handler keeps what it was handed (a batching
+		// or re-entrant handler) and looks at it only after the later objects were encoded
+		for i := rapid.IntRange(2, 4).Draw(t, "ntrees"); i > 0; i-- {
+			c.Trees = append(c.Trees, genJObj(t, rapid.IntRange(0, 2).Draw(t, "depth")))
+		}
+		c.UseNum = true
+		c.Carrier = "bytes"
+		return c
+	}
 	if c.Mode == "text-seq" {
 		// several messages through one channel whose frame codec reuses its read buffer (variable-length codec):
 		// a received string must stay what it was when later messages arrive
@@ -126,8 +138,8 @@ func genC16(t *rapid.T) C16Case {
 		c.Carrier = "bytes"
 		return c
 	}
-	c.Carrier = rapid.SampledFrom([]string{"bytes", "breader", "buffer", "frag", "string"}).Draw(t, "carrier")
-	if c.Carrier == "frag" {
+	c.Carrier = rapid.SampledFrom([]string{"bytes", "breader", "buffer", "frag", "string", "via-lf", "via-fixed"}).Draw(t, "carrier")
+	if c.Carrier == "frag" || c.Carrier == "via-lf" || c.Carrier == "via-fixed" {
 		c.Cuts = rapid.SliceOfN(rapid.IntRange(1, 9), 1, 8).Draw(t, "cuts")
 	}
 	c.Loop = rapid.IntRange(0, 19).Draw(t, "loop") == 0
@@ -137,7 +149,7 @@ func genC16(t *rapid.T) C16Case {
 		case 0:
 			c.Text = rapid.SliceOfN(rapid.Byte(), 0, 64).Draw(t, "text")
 		case 1:
-			n := rapid.SampledFrom([]int{0, 1, 1023, 1024, 1025, 2048, 4097, 65536, 65537}).Draw(t, "tlen")
+			n := rapid.SampledFrom([]int{0, 1, 1023, 1024, 1025, 2048, 4097, 32768, 32769, 65536, 65537, 100000, 131073, 200000}).Draw(t, "tlen")
 			c.Text, _ = payloadBytes(wire.Codec{}, n, rapid.IntRange(0, 99).Draw(t, "tseed"))
 		case 2:
 			c.Text = []byte(rapid.SampledFrom([]string{"", "\x00", "a\x00b", "\xff\xfe", "caf\xc3", "\r\n", "$", "é", "\xed\xa0\x80"}).Draw(t, "tlit"))
@@ -339,8 +351,36 @@ func hasBigInt(n JNode) bool {
 	return false
 }
 
+// viaFrameDecoder hands data to a shipped frame decoder the way a transport would (fragmented) and returns the
+// message the decoder delivers: what a text/JSON codec really receives behind a length-field or fixed-length codec.
+func viaFrameDecoder(kind string, data []byte, cuts []int) interface{} {
+	var dec netty.InboundHandler
+	var stream []byte
+	if kind == "via-fixed" {
+		if len(data) == 0 {
+			return append([]byte{}, data...)
+		}
+		dec = frame.FixedLengthCodec(len(data))
+		stream = append([]byte{}, data...)
+	} else {
+		dec = frame.LengthFieldCodec(binary.BigEndian, len(data)+4, 0, 4, 0, 4)
+		stream = binary.BigEndian.AppendUint32(nil, uint32(len(data)))
+		stream = append(stream, data...)
+	}
+	if len(cuts) > 0 && len(data) > 4096 {
+		// large frames arrive in segment-sized reads
+		cuts = append(append([]int{}, cuts...), 1460)
+	}
+	var got interface{}
+	ctx := &mock.Ctx{OnRead: func(m netty.Message) { got = m }}
+	dec.HandleRead(ctx, &wire.Fragmenter{Data: stream, Cuts: cuts, End: "eof"})
+	return got
+}
+
 func inboundCarrier(kind string, data []byte, cuts []int) interface{} {
 	switch kind {
+	case "via-lf", "via-fixed":
+		return viaFrameDecoder(kind, data, cuts)
 	case "breader":
 		return bytes.NewReader(append([]byte{}, data...))
 	case "buffer":
@@ -371,7 +411,10 @@ func runC16(c C16Case) (out core.Outcome) {
 		cls.Add("layer:channel")
 		return runC16Seq(c, cls, out)
 	}
-	if c.Loop {
+	if c.Mode == "json-seq" {
+		return runC16JSONSeq(c, cls, out)
+	}
+	if c.Loop && c.Carrier != "via-lf" && c.Carrier != "via-fixed" {
 		cls.Add("layer:channel")
 		return runC16Loop(c, cls, out)
 	}
@@ -672,6 +715,45 @@ func runC16Seq(c C16Case, cls *core.ClassSet, out core.Outcome) core.Outcome {
 	}
 	out.NonTrivial = true
 	cls.Add("text-sequence")
+	return out
+}
+
+// runC16JSONSeq: objects written one after the other through one JSON codec; the handler behind the codec keeps the
+// emitted messages and reads them only at the end. Each must still decode to its own object.
+func runC16JSONSeq(c C16Case, cls *core.ClassSet, out core.Outcome) core.Outcome {
+	codec := format.JSONCodec(true, false)
+	var held []interface{}
+	octx := &mock.Ctx{OnWrite: func(m netty.Message) { held = append(held, m) }}
+	for i, tr := range c.Trees {
+		if pv := mock.Catch(func() { codec.HandleWrite(octx, buildJSONValue(tr)) }); pv != nil {
+			out.Violation = core.Viol("C16/json-write-raised", "json codec raised %v writing object %d", pv, i)
+			return out
+		}
+	}
+	if len(held) != len(c.Trees) {
+		out.Violation = core.Viol("C16/json-delivery-count", "%d messages forwarded for %d objects written", len(held), len(c.Trees))
+		return out
+	}
+	for i, m := range held {
+		b, err := wire.Flatten(m)
+		if err != nil {
+			out.Inconclusive = fmt.Sprintf("harness: cannot flatten %T: %v", m, err)
+			return out
+		}
+		var got interface{}
+		n := 0
+		ictx := &mock.Ctx{OnRead: func(m netty.Message) { n++; got = m }}
+		if pv := mock.Catch(func() { codec.HandleRead(ictx, append([]byte{}, b...)) }); pv != nil || n != 1 {
+			out.Violation = core.Viol("C16/json-emitted-frame-changed-later", "object %d of %d: the message the codec emitted no longer decodes after later objects were written (%v): %.100q", i, len(c.Trees), pv, b)
+			return out
+		}
+		if d := equalJSON(c.Trees[i], got, true, "$"); d != "" {
+			out.Violation = core.Viol("C16/json-emitted-frame-changed-later", "object %d of %d: the message the codec emitted for it holds another object after later objects were written: %s (now %.100q)", i, len(c.Trees), d, b)
+			return out
+		}
+	}
+	cls.Add("json-sequence-held")
+	out.NonTrivial = true
 	return out
 }
 
